@@ -40,7 +40,7 @@ THEOREM_PRED = {'C10_solved_iff': 'IsProblemSolved', 'C10_indiffInfOrUnb_iff': '
                 'C10_counterexample_infeasible': 'IsProblemInfeasible',
                 'C10_solvedOrFeasible': 'IsProblemSolvedOrFeasible', 'C10_counterexample_solvedOrFeasible': 'IsProblemSolvedOrFeasible',
                 'C10_objective': 'objective', 'C10_counterexample_objective': 'objective', 'C10_no_objective': 'objective',
-                'C10_report_model_eq_generated': 'objective', 'C10_code_echo': 'code', 'C10_alt': 'altsol', 'C10_chain_forwards_code': 'altsol', 'C10_feasrelax': 'message:', 'C10_kappa': 'suffix:kappa', 'C10_unbdd': 'suffix:unbdd', 'C10_dunbdd': 'suffix:dunbdd', 'C10_iis': 'suffix:iis',
+                'C10_report_model_eq_generated': 'objective', 'C10_code_echo': 'code', 'C10_alt': 'altsol', 'C10_chain_forwards_code': 'altsol', 'C10_feasrelax': 'message:', 'C10_gen_msgTable': 'message', 'C10_msg': 'message', 'C10_gen_suffix_guards': 'suffix:', 'C10_gen_reg': 'table', 'C10_gen_add': 'table', 'C10_reg': 'table', 'C10_addResults': 'table', 'C10_kappa': 'suffix:kappa', 'C10_unbdd': 'suffix:unbdd', 'C10_dunbdd': 'suffix:dunbdd', 'C10_iis': 'suffix:iis',
                 'C10_enum': 'enum', 'C10_registry': 'table', 'C10_ranges': 'table', 'C10_rangeRows': 'table',
                 'C10_predicate_inclusions': 'Is'}
 
@@ -153,7 +153,7 @@ def canon_report(line, expected_nobj, stub=0):
          'hfs': [] if kv['hfs'] == '-' else [int(x) for x in kv['hfs'].split(',')], 'altmsg': int(kv['altmsg']),
          'flags': int(fl), 'fr': int(kv['fr']), 'orig': int(kv['orig']), 'kappamsg': int(kv['kappamsg']), 'extra': int(kv['extra']),
          'roundmsg': int(kv['roundmsg']), 'altrange': int(kv['altrange']), 'stdoutmsg': int(kv['stdoutmsg']), 'stdoutobj': int(kv['stdoutobj']),
-         'sufs': set() if kv['sufs'] == '-' else set(kv['sufs'].split(','))}
+         'sufs': set() if kv['sufs'] == '-' else set(kv['sufs'].split(',')), 'order': '' if kv['order'] == '-' else kv['order']}
     o['nobj_expected'] = expected_nobj
     op = 'report %d %d %d %d %d %d' % (o['code'], expected_nobj, o['primal'], o['dual'], o['nalt_in'], stub)
     can = '%s | objShown=%d code=%d primal=%d dual=%d objval=%d alt=%s' % (
@@ -171,11 +171,17 @@ def run(ck):
                        os.path.join(BUILD, 'tr'), inc], timeout=600)
     ck.log((out.strip() or err.strip())[-600:])
     translator_ok = rc == 0
-    N_THEOREMS = 36
+    gen2 = os.path.join(LEAN, 'MpVerif', 'Gen', 'StatusReport.lean')
+    rc2, out2, err2 = sh([sys.executable, os.path.join(VERIF, 'translators', 'gen_report.py'), REPO, gen2, os.path.join(BUILD, 'tr')], timeout=600)
+    ck.log((out2.strip() or err2.strip())[-600:])
+    if rc2 != 0:
+        translator_ok = False
+        out, err = out + out2, err + err2
+    N_THEOREMS = 58
     proof_ok, failing = False, []
     if translator_ok:
         proof_ok, failing = ck.proof_stage('MpVerif.C10.Props', 'MpVerif/C10/Props.lean', 'C10_',
-                                            ['MpVerif/C10/*.lean', 'MpVerif/Gen/Status.lean'], expect_min=N_THEOREMS)
+                                            ['MpVerif/C10/*.lean', 'MpVerif/Gen/Status.lean', 'MpVerif/Gen/StatusReport.lean'], expect_min=N_THEOREMS)
         ck.log('proof stage: ok=%s failing=%s' % (proof_ok, failing[:12]))
         if ck.tier == 'thorough' and proof_ok:
             bad = ck.leanchecker(['MpVerif.C10.Props'])
@@ -184,7 +190,7 @@ def run(ck):
                 proof_ok = False
     else:
         failing = ['translator: ' + (out + err).strip()[-600:]]
-        ck.cov.update({'obligations': N_THEOREMS, 'discharged': 0, 'checker_cmd': 'translators/gen_status.py failed (TRANSLATE-ERROR)'})
+        ck.cov.update({'obligations': N_THEOREMS, 'discharged': 0, 'checker_cmd': 'translators/gen_status.py / gen_report.py failed (TRANSLATE-ERROR)'})
         if not os.path.exists(inc):
             raise RuntimeError('translator failed and no enumerator list exists: ' + failing[0])
 
@@ -206,7 +212,7 @@ def run(ck):
     work = os.path.join(BUILD, 'c10')
     os.makedirs(work, exist_ok=True)
 
-    corr = {'enum': 0, 'pred': 0, 'table': 0, 'report': 0, 'extras': 0, 'class': 0, 'doctable': 0}
+    corr = {'enum': 0, 'pred': 0, 'table': 0, 'report': 0, 'extras': 0, 'markers': 0, 'addres': 0, 'class': 0, 'doctable': 0}
     corr_bad = {}
     hist = {'pred_true': {p: 0 for p in PREDS}, 'class': {}, 'report_objShown': 0, 'report_runs': 0,
             'report_by_class': {}, 'models': {}}
@@ -389,6 +395,43 @@ def run(ck):
         if sorted(drows) != sorted(doc.rows):
             disagree('doctable', 'doctable', sorted(doc.rows), sorted(drows))
 
+    # ------------------------------------------------------------ SolveResultRegistry::AddSolveResults on generated entry sets
+    prereg = sorted((a, b) for a, b, _ in doc.rows if a != b or a == 550)      # what the constructor registers (150 is added by the converter)
+    pool = [0, 1, 50, 99, 100, 149, 150, 159, 199, 200, 299, 300, 349, 350, 399, 400, 420, 421, 449, 450, 469, 470, 499, 500, 550, 600, 999, 1000, -1]
+    adds = []
+    for _ in range(300 if quick else 3000):
+        ents = set()
+        for _j in range(rnd.randint(1, 4)):
+            a = rnd.choice(pool)
+            kind = rnd.random()
+            if kind < 0.4:
+                ents.add((a, a))
+            elif kind < 0.6 and prereg:
+                ents.add(rnd.choice(prereg))
+            else:
+                ents.add((a, a + rnd.choice([0, 1, 9, 49, 99, 499])))
+        ents = sorted(ents, key=lambda e: (e[0], -e[1]))                     # the argument is a std::set<RegEntry> itself
+        adds.append('%d %s' % (rnd.randint(0, 1), ' '.join('%d:%d' % e for e in ents)))
+    rc, lines, err = run_lines([exe, 'addres'], inp='\n'.join(adds) + '\n')
+    impl_add = [l for l in lines if l.startswith('addres ')]
+    m = model(['addres ' + x for x in adds])
+    n_err = 0
+    for i, l in enumerate(impl_add):
+        corr['addres'] += 1
+        if m is not None and (i >= len(m) or m[i] != l):
+            disagree('addres', 'addres ' + adds[i], l, m[i] if i < len(m) else None)
+        cr = adds[i].split(' ')[0] == '1'
+        ents = [tuple(int(x) for x in t.split(':')) for t in adds[i].split(' ')[1:]]
+        res = l.split(' |')[1].split()
+        want_err = (not cr) and any(e in prereg for e in ents)               # oracle: an error iff an identical range exists and replacing is off
+        n_err += res == ['error']
+        if (res == ['error']) != want_err or (not want_err and any(('%d:%d' % e) not in [r.rstrip('+') for r in res] for e in ents)):
+            ck.add_violation('table:add-results', 'AddSolveResults(%s, canReplace=%s) on the pre-registered table gave %s' % (ents, cr, ' '.join(res)[:200]),
+                             {'entries': ents, 'canReplace': cr, 'result': res, 'replay': 'echo "%s" | h_status addres' % adds[i]}, found_input=True)
+    hist['addres'] = {'cases': len(impl_add), 'errors': n_err}
+    if rc != 0 or len(impl_add) != len(adds):
+        ck.add_violation('table:addres-harness-failed', 'addres harness exit %d, %d of %d lines: %s' % (rc, len(impl_add), len(adds), err[-300:]), {}, found_input=False)
+
     # ------------------------------------------------------------ complete driver runs
     # tiny.nl has one objective, noobj.nl none.  Documented postsolve behaviour: one objective value per model
     # objective.  This is an *expectation* checked on every run (observed sol.objvals.size() vs the NL header),
@@ -465,7 +508,7 @@ def run(ck):
         o_fr, o_kappa, o_rays, o_iis = optv('alg:feasrelax', 0), optv('alg:kappa', 0), optv('alg:rays', 3), optv('alg:iisfind', 0)
         o_round, o_count, o_noampl, o_wantsol = optv('mip:round', 0), optv('sol:count', 0), '@noampl' in mopts, optv('@wantsol', 1)
         is_mip = mn == 'mip2'
-        xops, xcans = [], []
+        xops, xcans, mkops, mkcans = [], [], [], []
         for l in lines:
             op, can, o = canon_report(l, nobj_model, stub)
             if op is None:
@@ -513,6 +556,11 @@ def run(ck):
                     rep_fail.setdefault(('message:%s' if key in ('fr', 'orig') else 'suffix:%s') % key + (':missing' if exp[key] else ':unexpected'), []).append((o['code'], tag))
             xops.append('extras %d %d %d %d %d %d %d %d' % (o['code'], nobj_model, int(o_fr != 0), int(o_fr != 0 and bool(fl & 1)), int(o_kappa != 0),
                                                                o_rays & 1, (o_rays >> 1) & 1, int(o_iis != 0)))
+            # order of the message pieces (ReportSolution2AMPL step table of the model)
+            naltrep = o['nalt_in'] if want_multi else 0
+            mkops.append('markers %d %d %d %d %d %d %d %d %d' % (o['code'], nobj_model, int(o_fr != 0), int(o_fr != 0 and bool(fl & 1)), int(o_kappa != 0),
+                                                                 int(bool(fl & 2)), naltrep, int(not (fl & 4)), int('warnings' in o['order'].split(','))))
+            mkcans.append(mkops[-1] + ' | ' + o['order'])
             xcans.append(xops[-1] + ' | fr=%d orig=%d kappa=%d unbdd=%d dunbdd=%d iis=%d' % tuple(got[x] for x in ('fr', 'orig', 'kappa', 'unbdd', 'dunbdd', 'iis')))
             # NB the code tests `exportKappa() && 1` (logical and): the message line appears for every non-zero alg:kappa,
             # not only when bit 1 is set as the option text says (side finding, not part of C10; see design_notes/coverage/C10.md)
@@ -550,8 +598,16 @@ def run(ck):
                 corr['extras'] = corr.get('extras', 0) + 1
                 if i >= len(mx) or mx[i] != xc:
                     disagree('extras', xops[i], xc, mx[i] if i < len(mx) else None)
-            if xcans and len(ck.cov['samples']) < 11:
+            if xcans and len(ck.cov['samples']) < 10:
                 ck.sample(xcans[len(xcans) // 3])
+        mk = model(mkops)
+        if mk is not None:
+            for i, c_ in enumerate(mkcans):
+                corr['markers'] = corr.get('markers', 0) + 1
+                if i >= len(mk) or mk[i] != c_:
+                    disagree('markers', mkops[i], c_, mk[i] if i < len(mk) else None)
+            if mkcans and len(ck.cov['samples']) < 11:
+                ck.sample(mkcans[len(mkcans) // 2])
     for kind, lst in sorted(rep_fail.items()):
         by_code = {}
         for c, tag in lst:
